@@ -360,10 +360,10 @@ def cases_big(tier, shard, nshards):
     """GCM (12-byte nonce: 32-bit inner counter starting at J0+1, SP 800-38D limit 2^39-256 bits = 2^36-32 bytes) and plain CTR with a
     4-byte counter (limit 2^36 bytes). `tail` are the call sizes after the object has been brought to limit-4096 bytes."""
     # (the encrypt case with tail [4096, 32, 16] is the committed replay replays/C11/gcm-limit-2-36-bytes.json and runs in every tier)
-    out = [{"mode": "GCM", "dir": "decrypt", "tail": [4096, 1, 32], "little": False, "initial": 0}]
+    out = [{"mode": "GCM", "dir": "decrypt", "tail": [4096, 1, 32], "little": False, "initial": 0},
+           {"mode": "CTR", "dir": "encrypt", "tail": [4096, 1, 16], "little": False, "initial": 0xFFFFFF00}]
     if tier != "quick":
         out += [{"mode": "GCM", "dir": "encrypt", "tail": [4097], "little": False, "initial": 0},
-                {"mode": "CTR", "dir": "encrypt", "tail": [4096, 1, 16], "little": False, "initial": 0xFFFFFF00},
                 {"mode": "CTR", "dir": "decrypt", "tail": [4097, 1], "little": True, "initial": 5}]
     return [c for k, c in enumerate(out) if k % nshards == shard]
 
@@ -454,7 +454,7 @@ CHECKS = [
           rule="ChaCha20/XChaCha20 seek + encrypt near the end of the key stream and past it (2^70, huge positions)"),
     Check("ccm_limit", run=run_ccm, cases=cases_ccm, shards=(12, 16), exhaustive=True,
           rule="CCM messages of 2^(8q)-1, 2^(8q), 2^(8q)+1 bytes, declared/undeclared, one call/split"),
-    Check("big_limit", run=run_big, cases=cases_big, shards=(1, 4),
+    Check("big_limit", run=run_big, cases=cases_big, shards=(2, 4),
           rule="AES-GCM (32-bit inner counter) and AES-CTR with a 4-byte counter driven to their 2^32-block limit through the public API (64 GiB): "
                "limit bytes accepted with the right key stream, the next byte refused, E_K(J0) never handed out"),
     Check("hpke", run=run_hpke, strategy=strat_hpke, examples=(300, 4000), shards=(4, 8),
